@@ -10,7 +10,7 @@ from vlib.wsgi import make_environ, call_app
 
 ID = 'C20'
 LEVEL = 'exploration'
-RULE = ('case = (error kind in {404, 404 next to an existing wildcard route (doubled / trailing slashes, extra segment, other case), 405 (literal and wildcard route), 400 malformed chunked body, 400 undecodable path, 500 handler crash whose exception text is the payload, '
+RULE = ('case = (error kind in {404, 404 whose whole path is the payload (URL-shaped text: scheme://[authority, //host, fragments), 404 next to an existing wildcard route (doubled / trailing slashes, extra segment, other case), 405 (literal and wildcard route), 400 malformed chunked body, 400 undecodable path, 500 handler crash whose exception text is the payload, '
         'last-resort critical-error page (custom error handler that raises / unknown charset)}, payload placed in the path, the query string (also as the value of well-known keys such as callback / jsonp / format), Host, '
         'X-Forwarded-Host and 16 other request headers (X-Request-ID, User-Agent, Referer, Cookie ...), Accept = HTML or application/json, debug off; optionally after 1-3 earlier requests for the same error on the same application with another Accept / a benign payload). Payloads are built from fragments: marker markup <zqx>, closing tags of the '
         'template, attribute breakers ("zqx"), percent-encoded and double-encoded markup (%3Czqx%3E, %253C..), pre-escaped entities, format-string '
@@ -25,12 +25,14 @@ FRAGS = ['<zqx>', '</zqx>', '<zqx a="1">', '"zqx"', "'zqx'", '</tt>', '</pre>', 
          '\\x3czqx\\x3e', '\\u003czqx\\u003e', '\\', 'a', 'b/c', ' ', '\0', 'é', '日本', '<', '>', '"', '&', '#', '?', '=', ';', '<!--', '-->', '<zqx', 'zqx>', '\n', '\r\n',
          '<zqx\n>', '<ZQX>', 'javascript:zqx', '<img src=zqx onerror=zqx>',
          # fragments made only of characters that naive "safe token" validations let through
+         # URL-shaped text (scheme, authority, IP-literal brackets, fragments): error pages and their JSON twins show or process the request URL
+         'http://[x', 'a://[', 'http://[::1/y', 'http://[zz]/', '//host/x', 'http://h/<zqx>', '\\\\host\\x', '?x=<zqx>', '#<zqx>', 'javascript://%0a<zqx>', '[', ']', '://', '@', 'user:pw@h',
          'abc<zqx/src=//x.example/y.js', 'id-1<zqx', 'a.b:c/d+e,f;g<zqx=1', '0<zqx', 'uuid-4f<zqx/onload=zqx', 'x<zqx,']
 _SHORT = st.lists(st.sampled_from(FRAGS), min_size=1, max_size=5).map(''.join)
 PAYLOAD = st.one_of(_SHORT, _SHORT, _SHORT,
                     st.tuples(_SHORT, st.sampled_from([300, 1100, 2100, 5000]), st.sampled_from(['a', '%41', 'é', '&'])).map(lambda t: t[0] + t[2] * t[1]),
                     st.tuples(_SHORT, st.sampled_from([300, 1100, 2100, 5000]), st.sampled_from(['a', '/', 'b=1&'])).map(lambda t: t[2] * t[1] + t[0]))
-KINDS = ['404', '404-near-route', '405', '405-wild', '400-chunked', '400-path', '500', 'critical-handler', 'critical-charset']
+KINDS = ['404', '404-root', '404-near-route', '405', '405-wild', '400-chunked', '400-path', '500', 'critical-handler', 'critical-charset']
 
 
 class Skel(HTMLParser):
@@ -125,6 +127,10 @@ def make_request(kind, payload, where, accept):
     ppart = payload if 'path' in where else 'plain'
     if kind in ('404', 'critical-handler'):
         return make_environ('GET', '/nf/' + ppart, qs=qs, headers=headers), (404 if kind == '404' else 500)
+    if kind == '404-root':
+        # the payload is the whole path (what follows the first slash may look like an absolute or network-path URL)
+        # (500: for some URL-shaped paths the HTML renderer itself fails on the unchanged tree and the last-resort page answers - still an error page to be judged)
+        return make_environ('GET', '/' + (ppart if 'path' in where else 'plain'), qs=qs, headers=headers), (404, 200, 500)
     if kind == '404-near-route':
         # a miss that lies next to an existing wildcard route: doubled / trailing slashes, one segment too many
         near = ['/user//' + ppart, '/user/' + ppart + '/x', '/user/' + ppart + '//', '//user//' + ppart + '/y', '/User/' + ppart][len(payload) % 5]
@@ -180,6 +186,9 @@ def check_case(ctx, case):
         raise CheckFailure(f'{kind}: expected status {want_code}, got {r.status!r} (payload {payload!r})')
     ct = (r.header('Content-Type') or '')
     body = r.body.decode('utf8', 'replace')
+    if kind == '404-root' and r.code == 500 and accept != 'application/json':          # (a JSON client still has to get JSON: that rendering does not depend on the URL)
+        kind = 'critical-handler'           # the last-resort page answered: judged as that page
+        ctx.count('url_shaped_path_answered_by_the_last_resort_page')
     is_json_kind = accept == 'application/json' and not kind.startswith('critical')
     if is_json_kind:
         if not ct.startswith('application/json'):
@@ -241,6 +250,12 @@ def run(ctx):
                     for accept in (None, 'application/json'):
                         ctx.guarded(check_case, {'kind': kind, 'payload': p, 'where': where, 'accept': accept})
         # every other request header and a set of well-known query keys as carrier, HTML and JSON rendering
+        for p in ['http://[x', 'a://[', 'http://[::1/y', 'http://[zz]/', '//host/<zqx>', 'http://h/<zqx>', '[<zqx>', 'http://[<zqx>]/', 'x#<zqx>', 'http:<zqx>', '\\\\h\\<zqx>', '%5B<zqx>']:
+            for kind in ('404-root', '404', '405-wild', '400-path'):
+                for where in (['path'], ['path', 'query'], ['path', 'host']):
+                    for accept in (None, 'application/json', 'text/html'):
+                        ctx.guarded(check_case, {'kind': kind, 'payload': p, 'where': where, 'accept': accept})
+        ctx.count('url_shaped_path_grid')
         for kind in ('404', '405', '500', '400-chunked'):
             for p in ['<zqx>', 'abc<zqx/src=//x.example/y.js', '"zqx"', '0<zqx', '</script><zqx>']:
                 for carrier in ['hdr:' + h for h in OTHER_HEADERS] + ['qkey:' + k for k in QUERY_KEYS]:
